@@ -153,7 +153,7 @@ type Thing struct {
 	Keeper   *Keeper
 }
 
-// Memo has one hook, declared on the value receiver (gorm offers the struct
+// Memo has two hooks (BeforeSave, AfterSave), declared on the value receiver (gorm offers the struct
 // value to the hook interfaces before the pointer).
 type Memo struct {
 	ID   uint `gorm:"primarykey"`
@@ -161,6 +161,7 @@ type Memo struct {
 }
 
 func (m Memo) BeforeSave(tx *gorm.DB) error { return call("BeforeSave", "Memo", &m, tx) }
+func (m Memo) AfterSave(tx *gorm.DB) error  { return call("AfterSave", "Memo", &m, tx) }
 
 // AllModels lists every model (migration order).
 // Club has many Users through their manager column and is reachable from no other
@@ -203,15 +204,18 @@ func call(hook, model string, rec interface{}, tx *gorm.DB) error {
 	return Sink(HookCall{hook, model, rec, tx})
 }
 
-// NoHook lists the hooks a model does NOT define: the models carry different
-// subsets, so that a hook of one kind is never implied by another kind being
-// present (User, Pet and Note define all of them).
+// NoHook lists the hooks a model does NOT define.  The subsets are chosen so that for
+// every ordered pair of hook kinds (H, H') some model defines H but not H' (a hook of
+// one kind is never implied by, nor detected through, another kind), and so that in
+// every callback guard of the form (X || Y) each side stands alone for some model.
+// User and Note define all of them.
 var NoHook = map[string]map[string]bool{
-	"Toy":      {"BeforeSave": true, "AfterSave": true, "AfterCreate": true},                                                                      // AfterUpdate without AfterSave/AfterCreate
-	"Language": {"BeforeCreate": true, "AfterCreate": true, "BeforeUpdate": true, "AfterUpdate": true, "BeforeDelete": true, "AfterDelete": true}, // save hooks (and AfterFind) only
-	"Account":  {"AfterUpdate": true, "AfterSave": true},                                                                                          // AfterCreate without AfterSave/AfterUpdate
-	"Company":  {"BeforeSave": true, "BeforeCreate": true, "BeforeUpdate": true},
-	"Memo":     {"BeforeCreate": true, "AfterCreate": true, "BeforeUpdate": true, "AfterUpdate": true, "AfterSave": true, "BeforeDelete": true, "AfterDelete": true},
+	"Toy":      {"BeforeSave": true, "AfterCreate": true, "AfterSave": true},
+	"Language": {"BeforeCreate": true, "AfterCreate": true, "BeforeUpdate": true, "AfterDelete": true},
+	"Account":  {"BeforeUpdate": true, "AfterUpdate": true, "AfterSave": true, "BeforeDelete": true},
+	"Company":  {"BeforeSave": true, "BeforeCreate": true, "AfterUpdate": true, "AfterFind": true},
+	"Pet":      {"BeforeDelete": true, "AfterDelete": true, "AfterFind": true},
+	"Memo":     {"BeforeCreate": true, "AfterCreate": true, "BeforeUpdate": true, "AfterUpdate": true, "BeforeDelete": true, "AfterDelete": true, "AfterFind": true},
 }
 
 // HookPattern removes from a comma separated hook sequence the hooks model does not define.
@@ -235,31 +239,6 @@ func (m *User) BeforeDelete(tx *gorm.DB) error { return call("BeforeDelete", "Us
 func (m *User) AfterDelete(tx *gorm.DB) error  { return call("AfterDelete", "User", m, tx) }
 func (m *User) AfterFind(tx *gorm.DB) error    { return call("AfterFind", "User", m, tx) }
 
-func (m *Company) AfterCreate(tx *gorm.DB) error  { return call("AfterCreate", "Company", m, tx) }
-func (m *Company) AfterUpdate(tx *gorm.DB) error  { return call("AfterUpdate", "Company", m, tx) }
-func (m *Company) AfterSave(tx *gorm.DB) error    { return call("AfterSave", "Company", m, tx) }
-func (m *Company) BeforeDelete(tx *gorm.DB) error { return call("BeforeDelete", "Company", m, tx) }
-func (m *Company) AfterDelete(tx *gorm.DB) error  { return call("AfterDelete", "Company", m, tx) }
-func (m *Company) AfterFind(tx *gorm.DB) error    { return call("AfterFind", "Company", m, tx) }
-
-func (m *Account) AfterCreate(tx *gorm.DB) error  { return call("AfterCreate", "Account", m, tx) }
-func (m *Account) BeforeSave(tx *gorm.DB) error   { return call("BeforeSave", "Account", m, tx) }
-func (m *Account) BeforeCreate(tx *gorm.DB) error { return call("BeforeCreate", "Account", m, tx) }
-func (m *Account) BeforeUpdate(tx *gorm.DB) error { return call("BeforeUpdate", "Account", m, tx) }
-func (m *Account) BeforeDelete(tx *gorm.DB) error { return call("BeforeDelete", "Account", m, tx) }
-func (m *Account) AfterDelete(tx *gorm.DB) error  { return call("AfterDelete", "Account", m, tx) }
-func (m *Account) AfterFind(tx *gorm.DB) error    { return call("AfterFind", "Account", m, tx) }
-
-func (m *Pet) BeforeSave(tx *gorm.DB) error   { return call("BeforeSave", "Pet", m, tx) }
-func (m *Pet) BeforeCreate(tx *gorm.DB) error { return call("BeforeCreate", "Pet", m, tx) }
-func (m *Pet) AfterCreate(tx *gorm.DB) error  { return call("AfterCreate", "Pet", m, tx) }
-func (m *Pet) BeforeUpdate(tx *gorm.DB) error { return call("BeforeUpdate", "Pet", m, tx) }
-func (m *Pet) AfterUpdate(tx *gorm.DB) error  { return call("AfterUpdate", "Pet", m, tx) }
-func (m *Pet) AfterSave(tx *gorm.DB) error    { return call("AfterSave", "Pet", m, tx) }
-func (m *Pet) BeforeDelete(tx *gorm.DB) error { return call("BeforeDelete", "Pet", m, tx) }
-func (m *Pet) AfterDelete(tx *gorm.DB) error  { return call("AfterDelete", "Pet", m, tx) }
-func (m *Pet) AfterFind(tx *gorm.DB) error    { return call("AfterFind", "Pet", m, tx) }
-
 func (m *Toy) BeforeCreate(tx *gorm.DB) error { return call("BeforeCreate", "Toy", m, tx) }
 func (m *Toy) BeforeUpdate(tx *gorm.DB) error { return call("BeforeUpdate", "Toy", m, tx) }
 func (m *Toy) AfterUpdate(tx *gorm.DB) error  { return call("AfterUpdate", "Toy", m, tx) }
@@ -267,9 +246,30 @@ func (m *Toy) BeforeDelete(tx *gorm.DB) error { return call("BeforeDelete", "Toy
 func (m *Toy) AfterDelete(tx *gorm.DB) error  { return call("AfterDelete", "Toy", m, tx) }
 func (m *Toy) AfterFind(tx *gorm.DB) error    { return call("AfterFind", "Toy", m, tx) }
 
-func (m *Language) BeforeSave(tx *gorm.DB) error { return call("BeforeSave", "Language", m, tx) }
-func (m *Language) AfterSave(tx *gorm.DB) error  { return call("AfterSave", "Language", m, tx) }
-func (m *Language) AfterFind(tx *gorm.DB) error  { return call("AfterFind", "Language", m, tx) }
+func (m *Language) BeforeSave(tx *gorm.DB) error   { return call("BeforeSave", "Language", m, tx) }
+func (m *Language) AfterUpdate(tx *gorm.DB) error  { return call("AfterUpdate", "Language", m, tx) }
+func (m *Language) AfterSave(tx *gorm.DB) error    { return call("AfterSave", "Language", m, tx) }
+func (m *Language) BeforeDelete(tx *gorm.DB) error { return call("BeforeDelete", "Language", m, tx) }
+func (m *Language) AfterFind(tx *gorm.DB) error    { return call("AfterFind", "Language", m, tx) }
+
+func (m *Account) BeforeSave(tx *gorm.DB) error   { return call("BeforeSave", "Account", m, tx) }
+func (m *Account) BeforeCreate(tx *gorm.DB) error { return call("BeforeCreate", "Account", m, tx) }
+func (m *Account) AfterCreate(tx *gorm.DB) error  { return call("AfterCreate", "Account", m, tx) }
+func (m *Account) AfterDelete(tx *gorm.DB) error  { return call("AfterDelete", "Account", m, tx) }
+func (m *Account) AfterFind(tx *gorm.DB) error    { return call("AfterFind", "Account", m, tx) }
+
+func (m *Company) AfterCreate(tx *gorm.DB) error  { return call("AfterCreate", "Company", m, tx) }
+func (m *Company) BeforeUpdate(tx *gorm.DB) error { return call("BeforeUpdate", "Company", m, tx) }
+func (m *Company) AfterSave(tx *gorm.DB) error    { return call("AfterSave", "Company", m, tx) }
+func (m *Company) BeforeDelete(tx *gorm.DB) error { return call("BeforeDelete", "Company", m, tx) }
+func (m *Company) AfterDelete(tx *gorm.DB) error  { return call("AfterDelete", "Company", m, tx) }
+
+func (m *Pet) BeforeSave(tx *gorm.DB) error   { return call("BeforeSave", "Pet", m, tx) }
+func (m *Pet) BeforeCreate(tx *gorm.DB) error { return call("BeforeCreate", "Pet", m, tx) }
+func (m *Pet) AfterCreate(tx *gorm.DB) error  { return call("AfterCreate", "Pet", m, tx) }
+func (m *Pet) BeforeUpdate(tx *gorm.DB) error { return call("BeforeUpdate", "Pet", m, tx) }
+func (m *Pet) AfterUpdate(tx *gorm.DB) error  { return call("AfterUpdate", "Pet", m, tx) }
+func (m *Pet) AfterSave(tx *gorm.DB) error    { return call("AfterSave", "Pet", m, tx) }
 
 func (m *Note) BeforeSave(tx *gorm.DB) error   { return call("BeforeSave", "Note", m, tx) }
 func (m *Note) BeforeCreate(tx *gorm.DB) error { return call("BeforeCreate", "Note", m, tx) }
